@@ -34,6 +34,11 @@ class StdLib:
             return [("_M_elems", Ty("arr", to=parse_type(a[0]), n=int(a[1])))]
         if canon.startswith("std::atomic<"):
             return [("v", parse_type(targs(canon)[0]))]
+        if canon.startswith("std::function<"):
+            return [("obj", parse_type("void *")), ("tag", parse_type("int"))]
+        if canon.startswith("std::pair<"):
+            a = targs(canon)
+            return [("first", parse_type(a[0])), ("second", parse_type(a[1]))]
         if canon in ("std::mutex",):
             return [("g_held", parse_type("bool"))]
         if canon.startswith("std::lock_guard<"):
@@ -197,6 +202,8 @@ static inline void verif_lock_guard_ctor(std_lock_guard_std_mutex *g, std_mutex 
 static inline void verif_lock_guard_dtor(std_lock_guard_std_mutex *g) { g->m->g_held = 0; }
 """)
             return [X("expr", X("call", "verif_lock_guard_ctor", [ptr, tr.bind_ref(args[0])]))]
+        if canon.startswith("std::function<"):
+            return self.function_ctor(canon, ptr, args, ps)
         if canon.startswith("std::atomic<"):
             tr.need_record(canon)
             tr.rule("std::atomic model")
@@ -204,6 +211,97 @@ static inline void verif_lock_guard_dtor(std_lock_guard_std_mutex *g) { g->m->g_
                 return [X("expr", X("assign", "=", X("mem", deref(ptr), "v"), tr.rv(args[0])))]
             return []
         return None
+
+    # ---- std::function: {heap copy of the callable, tag of its type}; operator() dispatches on the tag over the closed
+    #      universe of callables that are ever stored in this function type in the unit (generated after translation)
+    def function_ctor(self, canon, ptr, args, ps):
+        tr = self.tr
+        s = tr.need_record(canon)
+        tr.rule("std::function model")
+        tr.assume("std::function", "modelled as {heap copy of the stored callable, type tag}; invocation dispatches over the callables stored anywhere in the unit (closed universe); destruction is a no-op (the copy is leaked), copies share the stored callable")
+        self.fn_types = getattr(self, "fn_types", {})
+        reg = self.fn_types.setdefault(canon, [])
+        o = deref(ptr)
+        nonalloc = [a for a in args if a.get("kind") != "CXXDefaultArgExpr"]
+        if not nonalloc or "nullptr_t" in (ps[0] if ps else ""):
+            return [X("expr", X("assign", "=", X("mem", o, "obj"), X("lit", "((void*)0)"))), X("expr", X("assign", "=", X("mem", o, "tag"), X("lit", "0")))]
+        pt = parse_type(ps[0])
+        at = tr.ety(nonalloc[0]).noref()
+        if at.kind == "rec" and at.name == canon:
+            return [X("expr", X("assign", "=", o, tr.lv(nonalloc[0])))]
+        if at.kind != "rec":
+            raise ExtractionBreak("std::function constructed from a non-class callable (%s)" % at.key())
+        if at.name not in reg:
+            reg.append(at.name)
+        tag = reg.index(at.name) + 1
+        cn = tr.ctype(at)
+        self.ensure_fn_dispatch(canon)
+        self.fn_register_callop(canon, at.name)
+        return [X("expr", X("assign", "=", X("mem", o, "obj"), X("call", "verif_malloc", [X("sizeof", cn)]))),
+                X("expr", X("assign", "=", deref(X("cast", cn + " *", X("mem", o, "obj"))), tr.lv(nonalloc[0]) if tr.is_glvalue(nonalloc[0]) else tr.rv(nonalloc[0]))),
+                X("expr", X("assign", "=", X("mem", o, "tag"), X("lit", str(tag))))]
+
+    def ensure_fn_dispatch(self, canon):
+        tr = self.tr
+        s = tr.record_cname(canon)
+        key = "fn_dispatch:" + s
+        if key in self.text:
+            return
+        sig = targs(canon)[0]                      # e.g. "Probe ()" or "void ()"
+        from cxx2c import fn_ret_type
+        rets, ps = fn_ret_type(sig)
+        rt = parse_type(rets)
+        pts = [parse_type(p) for p in ps]
+        # request the call operators now (so that they are translated); text is produced lazily
+        def gen():
+            lines = []
+            args = "".join(", %s" % tr.cdecl(tr.lower(p), "a%d" % i) for i, p in enumerate(pts))
+            lines.append("%s(%s *f%s)\n{" % (tr.cdecl(tr.lower(rt), "verif_fn_call_" + s), s, args))
+            lines.append("  __CPROVER_assert(f->tag != 0, \"std::function invoked while empty (bad_function_call)\");")
+            for i, cname in enumerate(self.fn_types.get(canon, [])):
+                op = self.fn_callops.get((canon, cname))
+                cn = tr.ctype(parse_type(cname))
+                call = "%s((%s *)f->obj%s)" % (op, cn, "".join(", a%d" % k for k in range(len(pts))))
+                lines.append("  if (f->tag == %d) { %s%s; %s }" % (i + 1, "" if rt.name == "void" else "return ", call, "return;" if rt.name == "void" else ""))
+            if rt.name != "void":
+                lines.append("  { %s; return z; }" % tr.cdecl(tr.lower(rt), "z"))
+            lines.append("}")
+            return "\n".join(lines) + "\n"
+        self.text[key] = gen
+        self.fn_callops = getattr(self, "fn_callops", {})
+        # callables the unit declares may be stored by code outside the extracted functions (the caller's callable)
+        for cname in tr.opts.get("function_callables", {}).get(canon, []):
+            reg = self.fn_types.setdefault(canon, [])
+            if cname not in reg:
+                reg.append(cname)
+            self.fn_register_callop(canon, cname)
+
+    def fn_register_callop(self, canon, callable_canon):
+        """find and request operator() of the callable class"""
+        tr = self.tr
+        self.fn_callops = getattr(self, "fn_callops", {})
+        if (canon, callable_canon) in self.fn_callops:
+            return
+        rid = tr.ast.Rname.get(callable_canon)
+        node = tr.ast.nodes.get(rid, {})
+        for c in node.get("inner", []):
+            if c.get("kind") == "CXXMethodDecl" and c.get("name") == "operator()":
+                fn = tr.request(c["id"])
+                tr.cur.calls[fn] = True
+                self.fn_callops[(canon, callable_canon)] = fn
+                return
+        raise ExtractionBreak("callable '%s' stored in std::function has no operator()" % callable_canon)
+
+    def deps_of(self, name):
+        """extracted functions a generated model function calls (for closure computation)"""
+        if name.startswith("verif_fn_call_"):
+            sname = name[len("verif_fn_call_"):]
+            out = []
+            for (canon, cname), op in getattr(self, "fn_callops", {}).items():
+                if self.tr.record_cname(canon) == sname:
+                    out.append(op)
+            return out
+        return []
 
     def use_contract(self, name):
         self.tr.cur.calls[name] = True
@@ -218,6 +316,8 @@ static inline void verif_lock_guard_dtor(std_lock_guard_std_mutex *g) { g->m->g_
                 return self.ensure_vec(ty.name) + "_dtor"
             if ty.name.startswith("std::lock_guard<"):
                 return "verif_lock_guard_dtor"
+            if ty.name.startswith("std::function<"):
+                return ""
         return None
 
     # ------------------------------------------------------------------ calls
@@ -335,6 +435,30 @@ static inline void verif_lock_guard_dtor(std_lock_guard_std_mutex *g) { g->m->g_
                 self.use_contract(s + "_assign_copy")
                 return deref(X("comma", X("call", s + "_assign_copy", [addr(o), tr.bind_ref(args[0])]), addr(o), ty=Ty("ptr", to=oty)))
             raise ExtractionBreak("std::vector member '%s' has no model" % m)
+        # ---- std::function members
+        if q.startswith("std::function<") and obj is not None:
+            objn = self.strip_base_casts(obj[0])
+            oty = tr.ety(objn)
+            o = deref(tr.rv(objn)) if obj[1] else tr.lv(objn)
+            if obj[1]:
+                oty = oty.to
+            canon = oty.name
+            s = tr.need_record(canon)
+            m = q.split("::")[-1]
+            tr.rule("std::function model")
+            if m == "operator()":
+                self.ensure_fn_dispatch(canon)
+                self.fn_types = getattr(self, "fn_types", {})
+                self.fn_types.setdefault(canon, [])
+                fn = "verif_fn_call_" + s
+                tr.cur.calls[fn] = True
+                rt = parse_type(rets)
+                return X("call", fn, [addr(o)] + [tr.rv(a) for a in args], ty=tr.lower(rt))
+            if m == "operator bool":
+                return X("bin", "!=", X("mem", o, "tag"), X("lit", "0"), ty=parse_type("bool"))
+            if m == "operator=":
+                return deref(X("comma", X("assign", "=", o, tr.lv(args[0])), addr(o), ty=Ty("ptr", to=oty)))
+            raise ExtractionBreak("std::function member '%s' has no model" % m)
         # ---- array members
         if q.startswith("std::array<") and obj is not None:
             objn = obj[0]
